@@ -96,6 +96,12 @@ class SideAnalysis:
         self.sidestate_q = p.cls("SideState").qname
         self.provider_q = {p.cls("Provider").qname} | {c.qname for c in p.cls("Provider").all_subclasses()}
         self._defs: Dict[str, Dict[str, List[ast.AST]]] = {}
+        # inferred, name-independent contracts (greatest fix-point over the call sites, see _infer):
+        #   pairs[qname]       = {(a, b)}: parameter b is the other side of parameter a
+        #   param_side[qname]  = {p: (q, neg)}: parameter p carries a value of side q (or other(q))
+        self.pairs: Dict[str, set] = {}
+        self.param_side: Dict[str, Dict[str, Tuple[str, bool]]] = {}
+        self._infer()
 
     # ------------------------------------------------------------------ local definitions
     def defs(self, f: FuncInfo) -> Dict[str, List[ast.AST]]:
@@ -153,6 +159,9 @@ class SideAnalysis:
             params = f.all_param_names()
             for a, b in COMPLEMENT_PAIRS:
                 if e.id == b and a in params and b in params:
+                    return (a, True)
+            for (a, b) in self.pairs.get(f.qname, ()):
+                if e.id == b:
                     return (a, True)
             d = self.single_def(f, e.id)
             if d is not None and not isinstance(d, tuple):
@@ -257,6 +266,11 @@ class SideAnalysis:
             return None
         if isinstance(e, ast.Name):
             params = f.all_param_names()
+            ps_ = self.param_side.get(f.qname, {}).get(e.id)
+            if ps_ is not None:
+                s0 = self.side_expr(f, ast.Name(id=ps_[0], ctx=ast.Load()))
+                if s0 is not None:
+                    return s0 if not ps_[1] else neg(s0)
             if e.id in PARAM_SIDES and e.id in params:
                 base, n = PARAM_SIDES[e.id]
                 if base in params or len(self.defs(f).get(base, [])) == 1:
@@ -288,6 +302,140 @@ class SideAnalysis:
     def _is_provider(self, f: FuncInfo, e: ast.AST) -> bool:
         t = self.ctx.res.type_of(f, e)
         return any(term[0] == "inst" and term[1] in self.provider_q for term in t)
+
+    # ------------------------------------------------------------------ inference of side contracts
+    def _actuals(self, g: FuncInfo, call: ast.Call) -> Dict[str, ast.AST]:
+        pos = g.params()
+        skip = 1 if g.cls is not None and g.kind == "method" else 0
+        out = {}
+        for i, arg in enumerate(call.args):
+            if isinstance(arg, ast.Starred):
+                break
+            if i + skip < len(pos):
+                out[pos[i + skip]] = arg
+        for kw in call.keywords:
+            if kw.arg:
+                out[kw.arg] = kw.value
+        return out
+
+    def _call_sites(self, g: FuncInfo):
+        return [s for s in self.ctx.callers(g) if s.kind == "call" and g in s.under and isinstance(s.node, ast.Call)]
+
+    def _looks_like_side(self, f: FuncInfo, e: ast.AST) -> bool:
+        if isinstance(e, ast.Constant) and e.value in (0, 1) and not isinstance(e.value, bool):
+            return True
+        if isinstance(e, ast.Name) and e.id in ("LOCAL", "REMOTE"):
+            return True
+        if isinstance(e, ast.Subscript) and isinstance(e.value, ast.Name) and e.value.id == "OTHER_SIDE":
+            return True
+        if isinstance(e, ast.Call) and isinstance(e.func, ast.Name) and e.func.id == "other_side":
+            return True
+        if isinstance(e, ast.BinOp) and isinstance(e.op, ast.Sub) and isinstance(e.left, ast.Constant) and e.left.value == 1:
+            return True
+        return False
+
+    def _infer(self):
+        """Optimistic (greatest) fix-point: a pair (a, b) of g survives while EVERY call site passes provably complementary sides,
+        judged in the caller's frame under the pairs currently assumed for the caller."""
+        from .ctx import ENGINE_MODULES
+        funcs = [g for g in self.ctx.prog.functions.values() if g.module.name in ENGINE_MODULES and not isinstance(g.node, ast.Lambda)]
+        # candidates: parameter pairs that receive side-looking actuals at some call site, grown through callers' candidates
+        cand: Dict[str, set] = {}
+        changed = True
+        rounds = 0
+        while changed and rounds < 6:
+            changed = False
+            rounds += 1
+            for g in funcs:
+                sites = self._call_sites(g)
+                if not sites:
+                    continue
+                ps = [p for p in g.params()[(1 if g.cls is not None and g.kind == "method" else 0):]]
+                for a in ps:
+                    for b in ps:
+                        if a == b or (a, b) in cand.get(g.qname, ()):
+                            continue
+                        for s in sites:
+                            act = self._actuals(g, s.node)
+                            if a not in act or b not in act:
+                                continue
+                            ea, eb = act[a], act[b]
+                            ok = False
+                            if self._looks_like_side(s.func, eb) or self._looks_like_side(s.func, ea) or (isinstance(ea, ast.Name) and isinstance(eb, ast.Name)):
+                                sa_, sb_ = self.side_expr(s.func, ea), self.side_expr(s.func, eb)
+                                ok = sa_ is not None and sb_ is not None and canon(sb_) == canon(neg(sa_))
+                            if not ok and isinstance(ea, ast.Name) and isinstance(eb, ast.Name):
+                                cp = cand.get(s.func.qname, set())
+                                ok = (ea.id, eb.id) in cp or (eb.id, ea.id) in cp
+                            if ok:
+                                cand.setdefault(g.qname, set()).add((a, b))
+                                changed = True
+                                break
+        # one orientation per unordered pair: b (the later parameter) is expressed as other(a)
+        self.pairs = {}
+        for g in funcs:
+            ps = g.params()
+            keep = {(a, b) for (a, b) in cand.get(g.qname, ()) if ps.index(a) < ps.index(b)}
+            if keep:
+                self.pairs[g.qname] = keep
+        # verification: drop pairs with a call site that is not provably complementary
+        changed = True
+        while changed:
+            changed = False
+            for g in funcs:
+                for (a, b) in list(self.pairs.get(g.qname, ())):
+                    for s in self._call_sites(g):
+                        act = self._actuals(g, s.node)
+                        if a not in act or b not in act:
+                            bad = True
+                        else:
+                            sa_, sb_ = self.side_expr(s.func, act[a]), self.side_expr(s.func, act[b])
+                            bad = not (sa_ is not None and sb_ is not None and canon(sb_) == canon(neg(sa_)))
+                        if bad:
+                            self.pairs[g.qname].discard((a, b))
+                            changed = True
+                            break
+        self.pairs = {q: v for q, v in self.pairs.items() if v}
+        # sided value parameters: p carries side(q) / other(q) at every call site
+        self.param_side = {}
+        for _ in range(3):
+            for g in funcs:
+                sites = self._call_sites(g)
+                if not sites:
+                    continue
+                side_params = {x for pr in self.pairs.get(g.qname, ()) for x in pr}
+                ps = g.params()[(1 if g.cls is not None and g.kind == "method" else 0):]
+                # a lone side parameter (mkdir_synced(changed, ...)) counts too when its actuals are sides everywhere
+                for q in ps:
+                    if q not in side_params and all(q in self._actuals(g, s.node) and (self._looks_like_side(s.func, self._actuals(g, s.node)[q]) or
+                                                    any(self._actuals(g, s.node)[q].id in pr for pr in self.pairs.get(s.func.qname, ()))
+                                                    if isinstance(self._actuals(g, s.node)[q], ast.Name) else self._looks_like_side(s.func, self._actuals(g, s.node)[q])) for s in sites):
+                        side_params.add(q)
+                for p_ in ps:
+                    if p_ in side_params or p_ in self.param_side.get(g.qname, {}):
+                        continue
+                    for q in sorted(side_params):
+                        verdicts = set()
+                        for s in sites:
+                            act = self._actuals(g, s.node)
+                            if p_ not in act or q not in act:
+                                verdicts.add(None)
+                                break
+                            vs = self.value_side(s.func, act[p_])
+                            qs = self.side_expr(s.func, act[q])
+                            if vs is None or qs is None:
+                                verdicts.add(None)
+                                break
+                            if canon(vs) == canon(qs):
+                                verdicts.add(False)
+                            elif canon(vs) == canon(neg(qs)):
+                                verdicts.add(True)
+                            else:
+                                verdicts.add(None)
+                                break
+                        if len(verdicts) == 1 and None not in verdicts:
+                            self.param_side.setdefault(g.qname, {})[p_] = (q, verdicts.pop())
+                            break
 
     # ------------------------------------------------------------------ obligations
     def obligations(self, f: FuncInfo) -> List[Obligation]:
@@ -367,7 +515,8 @@ class SideAnalysis:
         ctx = self.ctx
         for g in ctx.prog.functions.values():
             params = g.all_param_names()
-            for a, b in COMPLEMENT_PAIRS:
+            named = [(a, b) for a, b in COMPLEMENT_PAIRS if a in params and b in params]
+            for a, b in named + [pr for pr in self.pairs.get(g.qname, ()) if pr not in named]:
                 if a in params and b in params:
                     for s in ctx.callers(g):
                         if s.kind != "call" or g not in s.under:
